@@ -21,9 +21,11 @@ CHECKS = {
     "C08": "c08",
     "C09": "c09",
     "C10": "c10",
+    "C11": "c11",
     "C12": "c12",
     "C13": "c13",
     "C15": "c15",
+    "C17": "c17",
     "C19": "c19",
 }
 
